@@ -180,14 +180,23 @@ def tp_rep(p):
     return None
 
 
+def _whole(x):
+    # (a day count that went through float arithmetic - e.g. a Duration
+    # built with standardize=True - is stored as 2.0: the value counts)
+    if type(x) is float and x == int(x):
+        return int(x)
+    return x
+
+
 def tp_date(p):
     rep = tp_rep(p)
     if rep == "cal":
-        return rep, (p._year, p._month_of_year, p._day_of_month)
+        return rep, (p._year, p._month_of_year, _whole(p._day_of_month))
     if rep == "ord":
-        return rep, (p._year, p._day_of_year)
+        return rep, (p._year, _whole(p._day_of_year))
     if rep == "week":
-        return rep, (p._year, p._week_of_year, p._day_of_week)
+        return rep, (p._year, _whole(p._week_of_year),
+                     _whole(p._day_of_week))
     return None, None
 
 
